@@ -303,6 +303,54 @@ func psCase(n, t, l int) harness.Case {
 			check("proof", m.name, true, verifyV(w.v, b))
 		}
 		check("proof", "other-session-key", true, verifyV(w2.v, pokBytes))
+		// proofs built through the exported prover primitive without any signature share at all
+		{
+			var tp ps.ThresholdPK
+			var xy ps.XYs
+			_, e1 := asn1.Unmarshal(w.tpk, &tp)
+			_, e2 := asn1.Unmarshal(tp.TPK, &xy)
+			X, e3 := cv.NewG2FromBytes(xy.X)
+			if e1 != nil || e2 != nil || e3 != nil {
+				c.Note("c09-tpk-layout", "threshold public key layout changed: forgeries without signature skipped")
+			} else {
+				pk := ps.PK{X: X}
+				for _, yb := range xy.Ys {
+					if Y, err := cv.NewG2FromBytes(yb); err == nil {
+						pk.Y = append(pk.Y, Y)
+					}
+				}
+				pp := ps.Setup(cv, l)
+				inf := func() *math.G1 { p := cv.GenG1.Copy(); p.Sub(p); return p }
+				rnd := func(seed string) *math.G1 { return cv.GenG1.Mul(cv.HashToZr([]byte(seed))) }
+				forge := []struct {
+					name      string
+					h, hPrime *math.G1
+				}{
+					{"no-signature/all-infinity", inf(), inf()},
+					{"no-signature/h-generator-hprime-infinity", cv.GenG1.Copy(), inf()},
+					{"no-signature/h-infinity-hprime-random", inf(), rnd("hp")},
+					{"no-signature/unrelated-points", rnd("h"), rnd("hp")},
+					{"no-signature/hprime-equals-h", rnd("h"), rnd("h")},
+				}
+				for _, f := range forge {
+					var fb []byte
+					func() {
+						defer func() { recover() }()
+						fm := hashMsg(msg)
+						for len(fm) < len(pk.Y) {
+							fm = append(fm, cv.HashToZr([]byte{byte(len(fm)), 'f'}))
+						}
+						pok := ps.PoKofSig(&pp, pk, f.h, f.hPrime, fm)
+						fb = pok.Bytes()
+					}()
+					if fb == nil {
+						c.Add("forgeries_not_buildable", 1)
+						continue // the primitive refused to build it
+					}
+					check("proof", f.name, true, verifyV(w.v, fb))
+				}
+			}
+		}
 		// witness combined under another signer's index
 		if n > t {
 			who := append([]uint16(nil), sub...)
